@@ -145,6 +145,25 @@ func runCheck(prop, tier string, seed int) int {
 	lemmaObls := lemmaObligations(S, prop)
 	d := &Discharger{Dir: filepath.Join(outDir, "smt"), Timeout: timeout, Workers: 14, All: tier == "thorough"}
 	d.Run(all)
+	// an obligation without a definite answer gets a second, unhurried attempt before it counts as
+	// failed: a loaded machine must not turn into an alarm
+	if tier != "thorough" {
+		var again []*Obligation
+		for _, o := range all {
+			if !o.IsCanary && (o.Res.Answer == "unknown" || o.Res.Answer == "timeout") {
+				again = append(again, o)
+			}
+		}
+		if len(again) > 0 && len(again) <= 40 {
+			d2 := &Discharger{Dir: d.Dir, Timeout: 60, Workers: 6}
+			d2.Run(again)
+			for _, o := range again {
+				if o.Res.Answer == "unsat" {
+					o.Res.Solver += " (second attempt, 60 s)"
+				}
+			}
+		}
+	}
 	runLemmas(lemmaObls, d)
 	all = append(all, lemmaObls...)
 
